@@ -1,6 +1,6 @@
 """C11 (partial): T-SIB(b) pool walkers, FIND-ORDER, T-SIB(h) definition names, SCOPE-WIDTH, R-ERR1/2 on Symbols."""
 from nk import report
-from rules import sym, err
+from rules import sym, err, elf
 from . import common
 
 EXPLANATION = (
@@ -9,7 +9,9 @@ EXPLANATION = (
     'advances (labels beyond one 32 KiB pool). FIND-ORDER: Symbols::find searches the current scope (only inside a scope) '
     'before scope 0. T-SIB(h): names handed to Symbols::append/set/export_symbol/macros_append are read with symbol '
     'substitution off. SCOPE-WIDTH: an entry\'s scope field holds every value of the scope counter. R-ERR1/R-ERR2: '
-    'duplicate-label and other symbol errors are propagated by every caller. Not decided: scope numbering equality '
+    'duplicate-label and other symbol errors are propagated by every caller. FIND-EXHAUSTIVE: a symbol/macro lookup loop is left early only '
+    'through its strcmp match (no entry is skipped by an early stop). ELF-LAYOUT: the symbol table (and the other ELF structures) are written '
+    'with the Elf32/Elf64 field order and widths selected by EI_CLASS. Not decided: scope numbering equality '
     'between the passes for arbitrary programs.')
 
 
@@ -28,5 +30,6 @@ def run(tier, t0):
     e1.obs = [o for o in e1.obs if o.construct.split('#')[0] in ('append', 'set', 'export_symbol', 'lookup', 'scope_start')]
     e1.floor = 5
     results = [sym.pool_walkers(prog, 8), sym.find_order(prog), sym.defnames(prog), sym.scope_width(prog), e1,
+               sym.find_exhaustive(prog, lambda f: f.file in ('core/Symbols.cpp', 'core/Macros.cpp'), 2), elf.layout(prog),
                err.err2(prog, lambda f: f.file in ('core/Symbols.cpp',), table, floor=3)]
     return report.finish('C11', tier, results, EXPLANATION, [], common.TRUSTED, t0)
